@@ -100,6 +100,12 @@ def what_text(spec, text):
         spec["kind"], spec.get("decade"), text)
 
 
+def replay_case(ctx, replay):
+    """check.py replay <file>: re-run exactly the recorded case on the implementation and the model"""
+    ctx.replay = replay
+    correspond(ctx)
+
+
 def correspond(ctx):
     _ll.generic_correspond(ctx, "c09_lap.cpp", EXE, "C09", plan_fn, build_line, label, what_text, min_points=lambda s: s["d"] + 3)
     ctx.cov["rule"] = ("routine level: compute_laplacian on true k-NN and arbitrary neighbour lists, compute_diffusion_matrix, distances "
